@@ -9,6 +9,7 @@ import SympdeModel.Model.PDeriv
 import SympdeModel.Model.Lower
 import SympdeModel.Model.Calc
 import SympdeModel.Model.Norm
+import SympdeModel.Model.Forms
 import SympdeModel.Model.Pattern
 import SympdeModel.Model.BC
 import SympdeModel.Model.Atoms
@@ -31,6 +32,7 @@ def dispatch (line : String) : String :=
       | "C01" => Lower.handle args
       | "C02" => Calc.handle args
       | "C11" => Norm.handle args
+      | "C06" => Forms.handle args
       | "C20" => Pat.handle args
       | "C18" => BC.handle args
       | "C17" => Atoms.handle args
